@@ -124,8 +124,9 @@ def start : Cfg :=
   { docA := ⟨[c2, c1], []⟩, docB := ⟨[c4, c3, c1], []⟩, stA := State.new, stB := State.new,
     linkAB := [], linkBA := [] }
 
-/-- the hook reports c3 and c2 as present in every filter -/
-def fpSome : Hash → Bool := fun h => h == [3] || h == [2]
+/-- the hook reports EVERY change as present in every filter: nothing is ever offered through the
+    Bloom-filter path, everything has to be recovered through `need` -/
+def fpAll : Hash → Bool := fun _ => true
 
 theorem start_initial : Initial start := by
   refine ⟨⟨?_, ?_, ?_⟩, ⟨?_, ?_, ?_⟩, rfl, rfl, ?_, rfl, rfl, rfl, rfl⟩
@@ -134,21 +135,23 @@ theorem start_initial : Initial start := by
 end Example
 
 /-- the hypotheses of `C20_quiescent_converged` are satisfiable on a non-trivial configuration:
-    from the forked histories the exchange is quiescent after 3 rounds (evaluated by the kernel),
-    is reachable, and — by the theorem, not by evaluation — converged -/
-example : Reachable (fun _ => false) (rounds (fun _ => false) 3 Example.start) ∧
-    Quiescent (fun _ => false) (rounds (fun _ => false) 3 Example.start) ∧
-    (rounds (fun _ => false) 3 Example.start).docA.heads = [[2], [4]] :=
-  ⟨(Reachable.init _ Example.start_initial).rounds 3, by decide, by decide⟩
+    from the forked histories the exchange is not quiescent after 1 round, quiescent after 2
+    (evaluated by the kernel), reachable, and — by the theorem, not by evaluation — converged -/
+example : Reachable (fun _ => false) (rounds (fun _ => false) 2 Example.start) ∧
+    ¬ Quiescent (fun _ => false) (rounds (fun _ => false) 1 Example.start) ∧
+    Quiescent (fun _ => false) (rounds (fun _ => false) 2 Example.start) ∧
+    (rounds (fun _ => false) 2 Example.start).docA.heads = [[2], [4]] :=
+  ⟨(Reachable.init _ Example.start_initial).rounds 2, by decide, by decide, by decide⟩
 
-/-- the same with forced false positives on two of the four changes: quiescence takes longer (4
-    rounds instead of 3, `need` requests recover the withheld changes), the result is the same -/
-example : ¬ Quiescent Example.fpSome (rounds Example.fpSome 3 Example.start) ∧
-    Quiescent Example.fpSome (rounds Example.fpSome 4 Example.start) ∧
-    (rounds Example.fpSome 4 Example.start).docB.heads = [[2], [4]] :=
+/-- the same with every change a forced false positive: quiescence takes longer (4 rounds
+    instead of 2, `need` requests recover the withheld changes one generation per round), the
+    result is the same -/
+example : ¬ Quiescent Example.fpAll (rounds Example.fpAll 3 Example.start) ∧
+    Quiescent Example.fpAll (rounds Example.fpAll 4 Example.start) ∧
+    (rounds Example.fpAll 4 Example.start).docB.heads = [[2], [4]] :=
   ⟨by decide, by decide, by decide⟩
 
-example : Converged (rounds Example.fpSome 4 Example.start) :=
+example : Converged (rounds Example.fpAll 4 Example.start) :=
   C20_quiescent_converged _ ((Reachable.init _ Example.start_initial).rounds 4) (by decide)
 
 /-
